@@ -133,7 +133,7 @@ def op_step(op):
 
 # start states: empty; populated (two tables, two row-sets); churned (every row of two row-sets deleted and
 # the row-sets compacted away: only delete vectors of vanished row-sets are left behind)
-PREFIXES = {"empty": [], "populated": ["CTt", "It1", "It2", "CTu", "Iu1"], "churned": ["CTt", "It1", "DtA", "It2", "DtA", "C"]}
+PREFIXES = {"empty": [], "populated": ["CTt", "It1", "It2", "CTu", "Iu1"], "churned": ["CTt", "It1", "It2", "Dt", "DtA", "C"]}
 
 
 def histories(d, prefix=()):
